@@ -19,6 +19,7 @@ def d_block_fns(p):
     h = ('k', '&self', [], None, 'thiscall') if p.get('d_priv_k') else ('h', '&self', [], None, 'thiscall')
     if mu == 6: return [d0]
     if mu == 8: return [f1, d0, h]
+    if mu == 9: return [d0, f1]
     return [d0, f1, h]
 
 
